@@ -54,6 +54,7 @@ theorem pcOf_eq (s : State) (t : Nat) : pcOf s t = (getT s.thr t).pc := by
 @[simp] theorem setThr_spawned (s : State) (t : Nat) (x : Thread) : (setThr s t x).spawned = s.spawned := rfl
 @[simp] theorem setThr_started (s : State) (t : Nat) (x : Thread) : (setThr s t x).started = s.started := rfl
 @[simp] theorem setThr_finished (s : State) (t : Nat) (x : Thread) : (setThr s t x).finished = s.finished := rfl
+@[simp] theorem setThr_thrown (s : State) (t : Nat) (x : Thread) : (setThr s t x).thrown = s.thrown := rfl
 
 /-- unfold `step`, split all its branches, normalise the result state -/
 syntax "pool_step_cases " ident : tactic
@@ -154,7 +155,7 @@ def rolePc : Role → Pc → Bool
   | _, .start | _, .finished | _, .call _ _ => true
   | .main, .mCtor _ | .main, .mSpawn _ | .main, .mJoinC _ | .main, .mDLock | .main, .mDStore | .main, .mDNotify
   | .main, .mDUnlock | .main, .mDJoin _ => true
-  | .worker, .wLock | .worker, .wLoadTerm1 | .worker, .wIdleInc | .worker, .wLoadTerm2 | .worker, .wWait
+  | .worker, .wInit _ | .worker, .wLock | .worker, .wLoadTerm1 | .worker, .wIdleInc | .worker, .wLoadTerm2 | .worker, .wWait
   | .worker, .wWaiting | .worker, .wIdleDec | .worker, .wLoadTerm3 | .worker, .wBusyInc | .worker, .wUnlockRun
   | .worker, .wFence | .worker, .wDoneInc | .worker, .wBusyDec | .worker, .wRelock | .worker, .wNotify
   | .worker, .wExitUnlock => true
@@ -296,6 +297,11 @@ def pendDone (th : Thread) : Bool := pendPc th.pc
 @[simp] theorem busyPc_mDJoin (r : Role) (i : Nat) : busyPc r (.mDJoin i) = false := by cases r <;> rfl
 @[simp] theorem runPc_mDJoin (r : Role) (i : Nat) : runPc r (.mDJoin i) = false := by cases r <;> rfl
 @[simp] theorem pendPc_mDJoin (i : Nat) : pendPc (.mDJoin i) = false := rfl
+@[simp] theorem holds_wInit (i : Nat) : holds (.wInit i) = false := rfl
+@[simp] theorem busyPc_wInit (r : Role) (i : Nat) : busyPc r (.wInit i) = false := by cases r <;> rfl
+@[simp] theorem runPc_wInit (r : Role) (i : Nat) : runPc r (.wInit i) = false := by cases r <;> rfl
+@[simp] theorem pendPc_wInit (i : Nat) : pendPc (.wInit i) = false := rfl
+@[simp] theorem rolePc_wInit (r : Role) (i : Nat) : rolePc r (.wInit i) = (r == .worker) := by cases r <;> rfl
 @[simp] theorem holds_call (k : Nat) (c : CPc) : holds (.call k c) = holdsC c := rfl
 @[simp] theorem busyPc_call (r : Role) (k : Nat) (c : CPc) : busyPc r (.call k c) = (r == .worker) := by cases r <;> rfl
 @[simp] theorem runPc_call (r : Role) (k : Nat) (c : CPc) : runPc r (.call k c) = (r == .worker) := by cases r <;> rfl
@@ -453,6 +459,34 @@ def cpcOk : Act → CPc → Bool
 @[simp] theorem cpcOk_lue_fence : cpcOk .lue .fence = true := rfl
 @[simp] theorem cpcOk_lut_fence : cpcOk .lut .fence = true := rfl
 @[simp] theorem cpcOk_unlock (a : Act) : cpcOk a .unlock = true := by cases a <;> rfl
+
+@[simp] theorem cpcOk_obsDone_enqNotify : cpcOk .obsDone .enqNotify = false := rfl
+@[simp] theorem cpcOk_obsDone_tStore : cpcOk .obsDone .tStore = false := rfl
+@[simp] theorem cpcOk_obsDone_tNotifyJ : cpcOk .obsDone .tNotifyJ = false := rfl
+@[simp] theorem cpcOk_obsDone_tNotifyF : cpcOk .obsDone .tNotifyF = false := rfl
+@[simp] theorem cpcOk_obsDone_loadTerm : cpcOk .obsDone .loadTerm = false := rfl
+@[simp] theorem cpcOk_obsDone_loadBusy : cpcOk .obsDone .loadBusy = false := rfl
+@[simp] theorem cpcOk_obsDone_wait : cpcOk .obsDone .wait = false := rfl
+@[simp] theorem cpcOk_obsDone_waiting : cpcOk .obsDone .waiting = false := rfl
+@[simp] theorem cpcOk_obsDone_fence : cpcOk .obsDone .fence = false := rfl
+@[simp] theorem cpcOk_obsIdle_enqNotify : cpcOk .obsIdle .enqNotify = false := rfl
+@[simp] theorem cpcOk_obsIdle_tStore : cpcOk .obsIdle .tStore = false := rfl
+@[simp] theorem cpcOk_obsIdle_tNotifyJ : cpcOk .obsIdle .tNotifyJ = false := rfl
+@[simp] theorem cpcOk_obsIdle_tNotifyF : cpcOk .obsIdle .tNotifyF = false := rfl
+@[simp] theorem cpcOk_obsIdle_loadTerm : cpcOk .obsIdle .loadTerm = false := rfl
+@[simp] theorem cpcOk_obsIdle_loadBusy : cpcOk .obsIdle .loadBusy = false := rfl
+@[simp] theorem cpcOk_obsIdle_wait : cpcOk .obsIdle .wait = false := rfl
+@[simp] theorem cpcOk_obsIdle_waiting : cpcOk .obsIdle .waiting = false := rfl
+@[simp] theorem cpcOk_obsIdle_fence : cpcOk .obsIdle .fence = false := rfl
+@[simp] theorem cpcOk_throw_enqNotify : cpcOk .throw .enqNotify = false := rfl
+@[simp] theorem cpcOk_throw_tStore : cpcOk .throw .tStore = false := rfl
+@[simp] theorem cpcOk_throw_tNotifyJ : cpcOk .throw .tNotifyJ = false := rfl
+@[simp] theorem cpcOk_throw_tNotifyF : cpcOk .throw .tNotifyF = false := rfl
+@[simp] theorem cpcOk_throw_loadTerm : cpcOk .throw .loadTerm = false := rfl
+@[simp] theorem cpcOk_throw_loadBusy : cpcOk .throw .loadBusy = false := rfl
+@[simp] theorem cpcOk_throw_wait : cpcOk .throw .wait = false := rfl
+@[simp] theorem cpcOk_throw_waiting : cpcOk .throw .waiting = false := rfl
+@[simp] theorem cpcOk_throw_fence : cpcOk .throw .fence = false := rfl
 
 /-- a thread inside a call is at a sub-pc of that call -/
 def callOkP (cfg : Cfg) (th : Thread) : Pc → Bool
@@ -672,22 +706,24 @@ theorem mainScriptPc_eq_call {cfg : Cfg} {k : Nat} {c : CPc} (h : mainScriptPc c
 @[simp] theorem script_mk_pc (cfg : Cfg) (th : Thread) (pc : Pc) :
     script cfg { role := th.role, pc := pc, job := th.job } = script cfg th := rfl
 @[simp] theorem script_endOfScript (cfg : Cfg) (th : Thread) : script cfg (endOfScript cfg th) = script cfg th := by
-  unfold script; simp
+  unfold script fullScript; simp
+@[simp] theorem throws_mk_pc (cfg : Cfg) (th : Thread) (pc : Pc) :
+    throws cfg { role := th.role, pc := pc, job := th.job } = throws cfg th := rfl
 
 
 theorem mainScriptPc_eq_call' {cfg : Cfg} {k : Nat} {c : CPc} (h : mainScriptPc cfg = .call k c) :
-    k = 0 ∧ c = .lock ∧ ∃ a, cfg.mainCalls[0]? = some a := by
+    k = 0 ∧ c = .lock ∧ ∃ a, (mainScript cfg)[0]? = some a := by
   unfold mainScriptPc at h
   split at h
   · simp at h
   · rename_i hne
     simp at h
     refine ⟨h.1.symm, h.2.symm, ?_⟩
-    cases hm : cfg.mainCalls with
+    cases hm : mainScript cfg with
     | nil => simp [hm] at hne
     | cons a l => exact ⟨a, rfl⟩
-theorem script_main (cfg : Cfg) (th : Thread) (h : th.role = .main) : script cfg th = cfg.mainCalls := by
-  unfold script; simp [h]
+theorem script_main (cfg : Cfg) (th : Thread) (h : th.role = .main) : script cfg th = mainScript cfg := by
+  unfold script fullScript mainScript; simp [h]
 theorem getElem?_zero_of_ne_nil {α : Type} {l : List α} (h : ¬ l = []) : ∃ a, l[0]? = some a := by
   cases l with
   | nil => exact absurd rfl h
@@ -696,14 +732,35 @@ theorem getElem?_of_lt {α : Type} {l : List α} {k : Nat} (h : k < l.length) : 
   ⟨l[k], List.getElem?_eq_getElem h⟩
 
 
-theorem cpcOk_predEntry (s : State) (a : Act) (h1 : ∀ code, ¬ a = .enq code) (h2 : ¬ a = .term) :
-    cpcOk a (predEntry s a) = true := by
-  unfold predEntry
-  cases a with
-  | enq n => exact absurd rfl (h1 n)
-  | term => exact absurd rfl h2
-  | lue => simp; split <;> simp
-  | lut => simp
+@[simp] theorem cpcOk_predEntry_lue (s : State) : cpcOk .lue (predEntry s .lue) = true := by
+  unfold predEntry; simp; split <;> simp
+@[simp] theorem cpcOk_predEntry_lut (s : State) : cpcOk .lut (predEntry s .lut) = true := by
+  unfold predEntry; simp
+
+theorem mem_takeWhile {α : Type} (p : α → Bool) : ∀ (l : List α) (a : α), a ∈ l.takeWhile p → p a = true ∧ a ∈ l
+  | [], a, h => by simp at h
+  | x :: l, a, h => by
+    simp only [List.takeWhile_cons] at h
+    split at h
+    · rename_i hx
+      simp only [List.mem_cons] at h ⊢
+      rcases h with rfl | h
+      · exact ⟨hx, Or.inl rfl⟩
+      · have := mem_takeWhile p l a h
+        exact ⟨this.1, Or.inr this.2⟩
+    · simp at h
+
+/-- the executed script never contains a `throw` -/
+theorem script_ne_throw {cfg : Cfg} {th : Thread} {k : Nat} (h : (script cfg th)[k]? = some .throw) : False := by
+  have hm := List.mem_of_getElem? h
+  unfold script at hm
+  have := (mem_takeWhile _ _ _ hm).1
+  simp at this
+
+/-- the executed calls are calls of the thread's full script -/
+theorem mem_script {cfg : Cfg} {th : Thread} {a : Act} (h : a ∈ script cfg th) : a ∈ fullScript cfg th := by
+  unfold script at h
+  exact (mem_takeWhile _ _ _ h).2
 
 theorem callOkP_mk (cfg : Cfg) (th : Thread) (pc pc' : Pc) :
     callOkP cfg { role := th.role, pc := pc', job := th.job } pc = callOkP cfg th pc := by
@@ -731,7 +788,6 @@ theorem call_step {cfg : Cfg} {s : State} {t c : Nat} {o} (h : step cfg s t c = 
       first
       | (simp [callOkP]; done)
       | (simp_all [callOkP]; done)
-      | (simp_all [callOkP]; apply cpcOk_predEntry <;> assumption)
       | (simp_all [callOkP]; cases ‹Act› <;> simp_all [predEntry] <;> split <;> simp; done)
       | (simp_all [callOkP]; cases ‹Act› <;> simp_all; done)
       | (cases hs : script cfg ‹Thread› <;> simp_all [callOkP]; done)
@@ -740,7 +796,7 @@ theorem call_step {cfg : Cfg} {s : State} {t c : Nat} {o} (h : step cfg s t c = 
          split
          · rcases mainJoinPc_cases cfg with h' | h' <;> simp [h', callOkP]
          · simp only [callOkP, script_main _ _ hm]
-           cases hmc : cfg.mainCalls <;> simp_all)
+           cases hmc : mainScript cfg <;> simp_all)
       | skip
     · simp only [hut, false_and, if_false]; exact hcu)
 
@@ -783,37 +839,88 @@ theorem busy_pos_of_busyDec {cfg : Cfg} {s : State} (hi : InvB cfg s) {t : Nat} 
   rw [hi.busy]
   exact one_le_countP inBusy s.thr t hlt (by rw [getElem_eq_getT hlt]; simp [inBusy, hp])
 
-theorem lueQ_step {cfg : Cfg} {s : State} {t c : Nat} {o} (h : step cfg s t c = some o) (hi : InvB cfg s) :
-    ∀ u k, ((getT o.st.thr u).pc = .call k .fence ∨ (getT o.st.thr u).pc = .call k .unlock) →
-      (script cfg (getT o.st.thr u))[k]? = some .lue → o.st.queue = [] ∧ o.st.busy = 0 := by
-  have hq := hi.lueQ
-  have hq' := hi.lueQ'
-  have hm := hi.mutex
-  have hbd := @busy_pos_of_busyDec cfg s hi t
+/-- a step does not touch the records of other threads -/
+theorem other_frame {cfg : Cfg} {s : State} {t c : Nat} {o} (h : step cfg s t c = some o) (u : Nat) (hut : t ≠ u) :
+    getT o.st.thr u = getT s.thr u := by
+  pool_step_cases h
+  all_goals (simp only [setThr_thr, getT_set]; simp [hut])
+
+/-- a thread that does not own the mutex leaves the queue alone and changes `busy_` only by `--busy_` -/
+theorem qb_frame {cfg : Cfg} {s : State} {t c : Nat} {o} (h : step cfg s t c = some o)
+    (hnh : holds (getT s.thr t).pc = false) :
+    o.st.queue = s.queue ∧ (o.st.busy = s.busy ∨ (getT s.thr t).pc = .wBusyDec) := by
+  pool_step_cases h
+  all_goals (
+    have hth := getT_of_getElem? ‹s.thr[t]? = some _›
+    rw [hth] at hnh)
+  all_goals (first
+    | exact ⟨rfl, Or.inl rfl⟩
+    | (exfalso; simp_all; done)
+    | (refine ⟨rfl, Or.inr ?_⟩; rw [hth]; assumption))
+
+/-- the acting thread reaches the fence / final unlock of loop_until_empty only with an empty queue and busy = 0 -/
+theorem lueQ_self {cfg : Cfg} {s : State} {t c : Nat} {o} (h : step cfg s t c = some o) (hi : InvB cfg s) :
+    ∀ k, ((getT o.st.thr t).pc = .call k .fence ∨ (getT o.st.thr t).pc = .call k .unlock) →
+      (script cfg (getT o.st.thr t))[k]? = some .lue → o.st.queue = [] ∧ o.st.busy = 0 := by
+  have hqt := hi.lueQ t
+  have hqt' := hi.lueQ' t
   have hct : ∀ k c, (getT s.thr t).pc = .call k c → ∃ a, (script cfg (getT s.thr t))[k]? = some a ∧ cpcOk a c = true :=
     fun k c hp => callOk_call (hi.call t) hp
   pool_step_cases h
   all_goals (
     have hlt := lt_of_getElem? ‹s.thr[t]? = some _›
     have hth := getT_of_getElem? ‹s.thr[t]? = some _›
-    intro u k
-    have hqu := hq u k
-    have hqt := hq t
-    have hqt' := hq' t
-    have hmu := hm u
-    have hmt := hm t
-    have hbd' := hbd hlt
-    rw [hth] at hct hqt hqt' hbd'
-    (try have hct' := hct _ _ ‹_ = Pc.call _ _›)
-    simp only [setThr_thr, getT_set]
-    by_cases hut : t = u
-    · subst hut; simp_all; all_goals (try (intros; simp_all))
-      all_goals (try (subst ‹Act.lue = _›; simp_all))
-    · simp only [hut, false_and, if_false]
-      intro h1 h2
-      have hh : holds (getT s.thr u).pc = true := by rcases h1 with h1 | h1 <;> rw [h1] <;> simp
-      simp_all)
+    rw [hth] at hct hqt hqt'
+    intro k
+    simp only [setThr_thr, getT_set, hlt, and_self, if_true]
+    (try simp only [script_mk_pc, script_endOfScript]))
+  all_goals (first
+    | (intro hpc; simp at hpc; done)
+    | skip)
+  all_goals (
+    intro hpc hsc
+    simp at hpc
+    subst hpc
+    (try (obtain ⟨a', ha', hok⟩ := hct _ _ ‹_ = Pc.call _ _›))
+    first
+    | (rw [‹(script cfg _)[_]? = some _›] at hsc; simp at hsc; done)
+    | (rw [ha'] at hsc; have := Option.some.inj hsc; subst this; simp at hok; done)
+    | (have h1 := hqt' _ ‹_ = Pc.call _ CPc.loadBusy› hsc; simp_all; done)
+    | (exact hqt _ (Or.inl ‹_ = Pc.call _ CPc.fence›) hsc))
 
+theorem lueQ_step {cfg : Cfg} {s : State} {t c : Nat} {o} (h : step cfg s t c = some o) (hi : InvB cfg s) :
+    ∀ u k, ((getT o.st.thr u).pc = .call k .fence ∨ (getT o.st.thr u).pc = .call k .unlock) →
+      (script cfg (getT o.st.thr u))[k]? = some .lue → o.st.queue = [] ∧ o.st.busy = 0 := by
+  intro u k hpc hsc
+  by_cases hut : t = u
+  · subst hut; exact lueQ_self h hi k hpc hsc
+  · rw [other_frame h u hut] at hpc hsc
+    obtain ⟨hq, hb⟩ := hi.lueQ u k hpc hsc
+    have hu : holds (getT s.thr u).pc = true := by rcases hpc with h1 | h1 <;> rw [h1] <;> simp
+    have hou := (hi.mutex u).mp hu
+    have hnt : holds (getT s.thr t).pc = false := by
+      cases hh : holds (getT s.thr t).pc with
+      | false => rfl
+      | true =>
+        have := (hi.mutex t).mp hh
+        rw [hou] at this
+        exact absurd (Option.some.inj this).symm hut
+    obtain ⟨hq', hb'⟩ := qb_frame h hnt
+    refine ⟨by rw [hq', hq], ?_⟩
+    rcases hb' with hb' | hb'
+    · rw [hb', hb]
+    · exfalso
+      have hlt : t < s.thr.length := by
+        apply Classical.byContradiction
+        intro hge
+        have : getT s.thr t = dflt := by
+          unfold getT
+          rw [List.getD_eq_getElem?_getD, List.getElem?_eq_none (by omega)]
+          rfl
+        rw [this] at hb'
+        simp [dflt] at hb'
+      have := busy_pos_of_busyDec hi hlt hb'
+      omega
 
 theorem init_pc (cfg : Cfg) : ∀ th, th ∈ (init cfg).thr → th.pc = .start := by
   intro th hth
